@@ -6,6 +6,8 @@
 
 #include "engine_base.hpp"
 
+#include <functional>
+
 namespace sim
 {
 
@@ -388,6 +390,8 @@ namespace sim
         case K_RESIZE_VAL:          return K_RESIZE;
         case K_APPEND_ILIST:        return K_APPEND_RANGE;
         case K_APPEND_COPY_SV:      return K_APPEND_MOVE_SV;
+        case K_EMPLACE_CREF_ALIAS:  return K_EMPLACE;
+        case K_EMPLACE_BACK_CREF_ALIAS: return K_EMPLACE_BACK;
         default:                    return k;
       }
     }
@@ -453,6 +457,8 @@ namespace sim
         case K_AT:                 unary<x_at> (o); break;
         case K_COMPARE:            binary<x_compare> (o, t, s); break;
         case K_NM_ACCESS:          unary<x_nm_access> (o); break;
+        case K_EMPLACE_CREF_ALIAS: unary_if<x_emplace_cref_alias> (o, C); break;
+        case K_EMPLACE_BACK_CREF_ALIAS: unary_if<x_emplace_back_cref_alias> (o, C); break;
         default:                   info.outcome = OUT_SKIPPED; break;
       }
     }
